@@ -1,7 +1,7 @@
 (* SnapRead/ProofsTop.v — the proofs of the theorems restated in Props.v. *)
 From Verif Require Import Base.Lex SnapRead.Model SnapRead.ModelRead SnapRead.ProofsOrd SnapRead.ProofsList
   SnapRead.ProofsScanF SnapRead.ProofsScanR SnapRead.ProofsScanLoop SnapRead.ProofsScanLoopR
-  SnapRead.ProofsCache SnapRead.ProofsRead SnapRead.ProofsTerm SnapRead.ProofsMove SnapRead.ProofsBuffer SnapRead.ProofsWorld SnapRead.ProofsWorldScan.
+  SnapRead.ProofsCache SnapRead.ProofsRead SnapRead.ProofsTerm SnapRead.ProofsMove SnapRead.ProofsBuffer SnapRead.ProofsWorld SnapRead.ProofsWorldScan SnapRead.ProofsReadThrough.
 
 (* For every truth (ascending keys), every snapshot ts, all bounds (empty = unbounded; even lo > hi),
    every batch size (0 and 1 are replaced by the default, sizes above 2^32-1 are capped, as in newScanner), key-only or not, EVERY
@@ -247,3 +247,21 @@ Proof.
   - reflexivity.
 Qed.
 
+
+(* The same over a store that honours committed_locks (TiKV, unistore: a lock whose transaction the
+   request names as committed is read THROUGH), with the asynchronous lock resolution of a read landing
+   or not ([lands], arbitrary): the snapshot object carries the ignored set AND the committed set; both
+   are statements about one timestamp and SetSnapshotTS drops both.  Every answer of every program of
+   Get / SetSnapshotTS (forward and BACKWARD) / finish events is read_at at the current version.
+   (Found here: the code kept the committed set across SetSnapshotTS; after a backward move below the
+   commit ts the value of the not yet committed-at-that-ts transaction was read — ex_backward_move.) *)
+Lemma C05_ts_moves_read_through_proof :
+  forall (w : world) (ts : N) (fuel : nat) (lands : nat -> bool) (ops : list pop),
+    txs_ok (w_txns w) ts -> lock_fresh w ->
+    let Fin := fun k => final_ws (w_txns w) (k_get (w_keys w) k) in
+    let st := (ts, mkRst w [] []) in
+    q_envs fuel lands st ops -> q_right Fin fuel lands st ops.
+Proof.
+  intros w ts fuel lands ops Htx Hfr Fin st Henv. apply q_program_right; [|exact Henv].
+  split; [split; [exact Htx|split; [intros t []|intros k; reflexivity]]|]. split; [intros t []|exact Hfr].
+Qed.
